@@ -1,7 +1,7 @@
 --------------------------- MODULE GenBlockTraverse ---------------------------
 (* Vector generator for C30 (spec -> impl, M1): every block of MCBlockTraverse *)
 (* with the era, count and traversal the specification expects.               *)
-(*  {blk: {tag, bodies, wits, aux: [[idx, id]..], invalid: [idx..] | [-1]},    *)
+(*  {blk: {tag, bodies, wits, aux: [[idx, id]..], has_invalid, invalid: [idx..]}, *)
 (*   era, count, txs: [{body, wits, aux, valid}..]}                           *)
 EXTENDS MCBlockTraverse, Json
 
